@@ -269,6 +269,9 @@ func (e *Engine) builtin(st *State, b *ssa.Builtin, c *ssa.CallCommon, args []Va
 	switch b.Name() {
 	case "ssa:deferstack":
 		k(st, scalar(tb.Int(0)))
+	case "ssa:wrapnilchk":
+		e.nilCheck(st, args[0], pos, "method value/wrapper called with nil pointer receiver")
+		k(st, args[0])
 	case "len":
 		T := c.Args[0].Type()
 		switch u := T.Underlying().(type) {
@@ -560,8 +563,12 @@ func (e *Engine) modularCallSig(st *State, sig *types.Signature, name string, ct
 	env := map[string]specBind{}
 	for i := range names {
 		a := args[i]
-		// interior pointers and local slices passed to modular callees: copy-in
-		a = e.copyIn(st, a, typs[i])
+		// interior pointers and local slices passed to modular callees: copy-in (only when the callee may write)
+		if len(ct.Modifies) > 0 {
+			a = e.copyIn(st, a, typs[i])
+		} else {
+			a = e.materialiseIfSlice(st, a, typs[i])
+		}
 		args[i] = a
 		env[names[i]] = specBind{a, typs[i]}
 	}
@@ -589,6 +596,7 @@ func (e *Engine) modularCallSig(st *State, sig *types.Signature, name string, ct
 	na := tb.Fresh("alloc", SInt)
 	e.assume(st, tb.Ge(na, st.Alloc))
 	st.Alloc = na
+	st.noteAlloc()
 	// results
 	res := e.havocResults(st, sig, "r_"+sanitize(name))
 	rn := resultNames(sig, ct)
@@ -612,7 +620,9 @@ func (e *Engine) modularCallSig(st *State, sig *types.Signature, name string, ct
 		e.assume(st, e.evalClause(post, en))
 	}
 	// copy-out for interior pointers
-	e.copyOut(st)
+	if len(ct.Modifies) > 0 {
+		e.copyOut(st)
+	}
 	k(st, res)
 }
 
